@@ -121,6 +121,7 @@ def roundtrip(part, fmt, n, offset, kind, bonded, route, tmpdir):
     what = "%s round trip of %d atoms (%s, %s, %s)" % (fmt, n, kind, "bonded" if bonded else "unbonded", route)
     part.ev()
     part.tr(2)
+    pos0 = pos.copy()
     try:
         m = make_molecule(zs, pos, bonded)
         if route == "string":
@@ -141,6 +142,23 @@ def roundtrip(part, fmt, n, offset, kind, bonded, route, tmpdir):
     except Exception as e:
         part.fail("%s-write-raise:%s" % (fmt, key), "%s: writing raised %s: %s" % (what, type(e).__name__, str(e)[:80]), case)
         return
+    # writing is reading the molecule, not editing it: the object (and the caller's coordinate array it was built from) is bit for bit what
+    # it was, and what it writes NEXT - in the other format - is what a molecule that was never written before writes
+    try:
+        part.tr()
+        if not np.array_equal(np.asarray(m.positions, dtype=float), pos0) or not np.array_equal(pos, pos0) or [int(z) for z in m.atomic_numbers] != list(zs):
+            part.fail("write-edits-molecule:%s" % fmt, "%s: after writing, the molecule's coordinates / elements are no longer the ones it was built with (max change %.3g)"
+                      % (what, float(np.abs(np.asarray(m.positions, dtype=float) - pos0).max())), case)
+            pos = pos0.copy()
+        else:
+            after = m.to_sdf_string() if fmt == "xyz" else m.to_xyz_string()
+            fresh = make_molecule(zs, pos0.copy(), bonded)
+            never = fresh.to_sdf_string() if fmt == "xyz" else fresh.to_xyz_string()
+            if after != never:
+                part.fail("write-history:%s" % fmt, "%s: the %s text written AFTER the %s text differs from the one a molecule that was never written gives"
+                          % (what, "sdf" if fmt == "xyz" else "xyz", fmt), case)
+    except Exception as e:
+        part.fail("write-history-raise:%s" % fmt, "%s: writing the other format afterwards raised %s: %s" % (what, type(e).__name__, str(e)[:80]), case)
     if fmt == "sdf":
         part.trace()
         check_sdf_text(part, text, zs, pos, key, what, case)
